@@ -394,7 +394,10 @@ func genX(r *vh.Rng) (float64, string) {
 		}
 	case 4:
 		cls = "int53"
-		switch r.Intn(7) {
+		switch r.Intn(9) {
+		case 7, 8:
+			// integers in [2^53, 2^64) with an odd 53-bit significand: the exact expansion differs from the shortest digits
+			x = float64((r.U64()>>11)|1|1<<52) * math.Ldexp(1, 1+r.Intn(11))
 		case 0:
 			x = 9007199254740992 + float64(r.Intn(9)-4)*2
 			if r.Bool() {
